@@ -212,6 +212,8 @@ class Method:
 def translate(repo):
     src = open(repo + "/pyemv/cvn.py").read()
     tree = ast.parse(src)
+    import pynorm
+    tree = pynorm.normalise_light(tree)           # module constants, chained comparisons, conditional expressions
     out = ["import PyemvModel.Cvn",
            "/-! GENERATED by harness/translate_cvn.py from pyemv/cvn.py — do not edit. -/",
            "namespace Pyemv.CvnGen", "open Pyemv", ""]
